@@ -92,6 +92,13 @@ pub fn replay(ctx: &Ctx, subj: &dyn DynSubject, ty: &Ty, r: &Value, rep: &mut Re
     REPLAY_VAL.with(|c| *c.borrow_mut() = None);
 }
 
+/// Set by the fuzz targets: per-input work is kept small (no file-backed entry points, fewer cut points).
+pub static LIGHT: std::sync::atomic::AtomicBool = std::sync::atomic::AtomicBool::new(false);
+
+pub fn light() -> bool {
+    LIGHT.load(std::sync::atomic::Ordering::Relaxed)
+}
+
 thread_local! {
     pub static REPLAY_VAL: std::cell::RefCell<Option<Val>> = const { std::cell::RefCell::new(None) };
 }
